@@ -1,3 +1,81 @@
+//! vf-sbor binary: checks C20, C21, C23. Installs a counting global allocator so that C21 can
+//! assert a bound on the bytes a decode allocates. Counters are per thread (the 16 workers decode
+//! concurrently), and only count while the thread has a measurement open.
+
+use std::alloc::{GlobalAlloc, Layout, System};
+use std::cell::Cell;
+
+struct Counting;
+
+thread_local! {
+    static ACTIVE: Cell<bool> = const { Cell::new(false) };
+    static CURRENT: Cell<isize> = const { Cell::new(0) };
+    static PEAK: Cell<isize> = const { Cell::new(0) };
+}
+
+#[inline]
+fn on_alloc(size: usize) {
+    let _ = ACTIVE.try_with(|a| {
+        if a.get() {
+            let _ = CURRENT.try_with(|c| {
+                let v = c.get().saturating_add(size as isize);
+                c.set(v);
+                let _ = PEAK.try_with(|p| {
+                    if v > p.get() {
+                        p.set(v);
+                    }
+                });
+            });
+        }
+    });
+}
+
+#[inline]
+fn on_free(size: usize) {
+    let _ = ACTIVE.try_with(|a| {
+        if a.get() {
+            let _ = CURRENT.try_with(|c| c.set(c.get().saturating_sub(size as isize)));
+        }
+    });
+}
+
+unsafe impl GlobalAlloc for Counting {
+    unsafe fn alloc(&self, layout: Layout) -> *mut u8 {
+        on_alloc(layout.size());
+        unsafe { System.alloc(layout) }
+    }
+    unsafe fn dealloc(&self, ptr: *mut u8, layout: Layout) {
+        on_free(layout.size());
+        unsafe { System.dealloc(ptr, layout) }
+    }
+    unsafe fn alloc_zeroed(&self, layout: Layout) -> *mut u8 {
+        on_alloc(layout.size());
+        unsafe { System.alloc_zeroed(layout) }
+    }
+    unsafe fn realloc(&self, ptr: *mut u8, layout: Layout, new_size: usize) -> *mut u8 {
+        // worst case both blocks are live while the data is copied
+        on_alloc(new_size);
+        let p = unsafe { System.realloc(ptr, layout, new_size) };
+        on_free(layout.size());
+        p
+    }
+}
+
+#[global_allocator]
+static GLOBAL: Counting = Counting;
+
+fn begin() {
+    CURRENT.with(|c| c.set(0));
+    PEAK.with(|p| p.set(0));
+    ACTIVE.with(|a| a.set(true));
+}
+
+fn end() -> usize {
+    ACTIVE.with(|a| a.set(false));
+    PEAK.with(|p| p.get()).max(0) as usize
+}
+
 fn main() {
+    vf_sbor::alloc_hook::install(vf_sbor::alloc_hook::Hooks { begin, end });
     vf_core::main_with(vf_sbor::checks());
 }
